@@ -344,6 +344,204 @@ def split_tuple_assignments(fn) -> int:
     return n_split
 
 
+def _load_form(t):
+    """The expression that reads back what an assignment to target `t` stored; `obj.__dict__["x"]` reads as `obj.x`."""
+    from .core import copy_ast
+    e = copy_ast(t)
+    for x in ast.walk(e):
+        if hasattr(x, "ctx"):
+            x.ctx = ast.Load()
+    if isinstance(e, ast.Subscript) and isinstance(e.value, ast.Attribute) and e.value.attr == "__dict__" and isinstance(e.slice, ast.Constant) and isinstance(e.slice.value, str):
+        e = ast.Attribute(value=e.value.value, attr=e.slice.value, ctx=ast.Load())
+    return e
+
+
+def split_chained_assignments(fn) -> int:
+    """`a.x = b = V` -> `a.x = V; b = a.x` (the attribute/subscript target first: the alias pass then reads every use of `b` as
+    `a.x`). The targets of a chained assignment all receive the same object, so the split is the same program provided reading a
+    target back returns what was stored - true of plain attributes and dictionary slots, the only targets accepted here."""
+    n = 0
+    for node in ast.walk(fn):
+        for attr in ("body", "orelse", "finalbody"):
+            blk = getattr(node, attr, None)
+            if not isinstance(blk, list):
+                continue
+            out = []
+            for st in blk:
+                if isinstance(st, ast.Assign) and len(st.targets) > 1 and all(isinstance(t, ast.Name) or _is_path(t) or (
+                        isinstance(t, ast.Subscript) and isinstance(t.value, ast.Attribute) and t.value.attr == "__dict__" and isinstance(t.slice, ast.Constant)) for t in st.targets):
+                    prim = next((t for t in st.targets if not isinstance(t, ast.Name)), st.targets[0])
+                    first = ast.Assign(targets=[prim], value=st.value)
+                    ast.copy_location(first, st)
+                    out.append(first)
+                    for t in st.targets:
+                        if t is prim:
+                            continue
+                        a = ast.Assign(targets=[t], value=_load_form(prim))
+                        ast.copy_location(a, st)
+                        ast.fix_missing_locations(a)
+                        out.append(a)
+                    for a in out[-len(st.targets):]:
+                        if hasattr(st, "_module"):
+                            a._module = st._module
+                    n += 1
+                    continue
+                out.append(st)
+            setattr(node, attr, out)
+    if n:
+        for node in ast.walk(fn):
+            for child in ast.iter_child_nodes(node):
+                child._parent = node
+    return n
+
+
+def coalesce_copies(fn) -> int:
+    """In/out copies left by inlining a helper that rebinds its parameter and hands it back:
+
+        t = a ; ...t only... ; a = t        ->        ...a only...
+
+    `t` is renamed to `a` when (1) `t = a` is the first occurrence of t, (2) `a = t` follows in the same block with no occurrence
+    of `a` in between, (3) afterwards t is never stored again and every read of t precedes (in document order, and not across a
+    loop's back edge) the next store to `a`. Under these conditions t and a hold the same object wherever t is read."""
+    done = 0
+    for _ in range(8):
+        changed = False
+        params = {a.arg for a in fn.args.args + fn.args.kwonlyargs + fn.args.posonlyargs} | ({fn.args.vararg.arg} if fn.args.vararg else set()) | ({fn.args.kwarg.arg} if fn.args.kwarg else set())
+        own = list(_own_nodes(fn))
+        for blk_owner in [fn] + own:
+            for attr in ("body", "orelse", "finalbody"):
+                blk = getattr(blk_owner, attr, None)
+                if not isinstance(blk, list):
+                    continue
+                for i, st in enumerate(blk):
+                    if not (isinstance(st, ast.Assign) and len(st.targets) == 1 and isinstance(st.targets[0], ast.Name) and isinstance(st.value, ast.Name)):
+                        continue
+                    t, a = st.targets[0].id, st.value.id
+                    if t == a or t in params or "__i" not in t:
+                        continue
+                    j = next((k for k in range(i + 1, len(blk)) if isinstance(blk[k], ast.Assign) and len(blk[k].targets) == 1 and isinstance(blk[k].targets[0], ast.Name)
+                              and blk[k].targets[0].id == a and isinstance(blk[k].value, ast.Name) and blk[k].value.id == t), None)
+                    if j is None:
+                        continue
+                    names = [n for n in own if isinstance(n, ast.Name) and n.id in (t, a)]
+                    if any(n.id == t for n in names if _before(n, st)):
+                        continue
+                    between = {id(n) for k in range(i + 1, j) for n in ast.walk(blk[k])}
+                    if any(n.id == a and id(n) in between for n in names):
+                        continue
+                    if any(isinstance(n, (ast.FunctionDef, ast.Lambda, ast.AsyncFunctionDef)) for k in range(i, j + 1) for n in ast.walk(blk[k])):
+                        continue
+                    after = [n for n in names if _before(blk[j], n) and not any(n is x for x in ast.walk(blk[j]))]
+                    if any(n.id == t and isinstance(n.ctx, (ast.Store, ast.Del)) for n in after):
+                        continue
+                    a_stores = [n for n in after if n.id == a and isinstance(n.ctx, (ast.Store, ast.Del))]
+                    t_loads = [n for n in after if n.id == t]
+                    ok = True
+                    for ld in t_loads:
+                        for sn in a_stores:
+                            if _pos(sn) < _pos(ld) and not _rhs_of_same_store(sn, ld):
+                                ok = False
+                            lp = _common_loop(sn, ld, fn)
+                            if lp is not None and not any(st is x for x in ast.walk(lp)):
+                                ok = False
+                    if not ok:
+                        continue
+                    for n in own:
+                        if isinstance(n, ast.Name) and n.id == t:
+                            n.id = a
+                    del blk[j]
+                    del blk[i]
+                    if not blk:
+                        blk.append(ast.copy_location(ast.Pass(), st))
+                    changed = True
+                    done += 1
+                    break
+                if changed:
+                    break
+            if changed:
+                break
+        if not changed:
+            break
+    if done:
+        for node in ast.walk(fn):
+            for child in ast.iter_child_nodes(node):
+                child._parent = node
+    return done
+
+
+def _pos(n):
+    return (getattr(n, "lineno", 0), getattr(n, "col_offset", 0))
+
+
+def _doc_index(fn):
+    return {id(n): i for i, n in enumerate(_preorder(fn))}
+
+
+def _preorder(n):
+    yield n
+    for c in ast.iter_child_nodes(n):
+        yield from _preorder(c)
+
+
+_IDX_CACHE = {}
+
+
+def _before(x, y) -> bool:
+    """x precedes y in the tree's document order (both under the same function)."""
+    root = x
+    while getattr(root, "_parent", None) is not None and not isinstance(root, (ast.FunctionDef, ast.AsyncFunctionDef)):
+        root = root._parent
+    key = (id(root), sum(1 for _ in ast.walk(root)))
+    if _IDX_CACHE.get("key") != key:
+        _IDX_CACHE["key"] = key
+        _IDX_CACHE["idx"] = _doc_index(root)
+    idx = _IDX_CACHE["idx"]
+    return idx.get(id(x), -1) < idx.get(id(y), -1)
+
+
+def _rhs_of_same_store(store_name, load_name) -> bool:
+    """`a = f(t)`: the load is evaluated before the store of the same statement."""
+    s = store_name
+    while s is not None and not isinstance(s, ast.stmt):
+        s = getattr(s, "_parent", None)
+    return isinstance(s, (ast.Assign, ast.AugAssign, ast.AnnAssign)) and s.value is not None and any(load_name is x for x in ast.walk(s.value))
+
+
+def _common_loop(x, y, fn):
+    def loops(n):
+        out = []
+        while n is not None and n is not fn:
+            if isinstance(n, (ast.For, ast.While, ast.AsyncFor)):
+                out.append(n)
+            n = getattr(n, "_parent", None)
+        return out
+    lx = loops(x)
+    for l in loops(y):
+        if any(l is m for m in lx):
+            return l
+    return None
+
+
+def merge_nested_ifs(fn) -> int:
+    """`if A: (only) if B: S` with no else on either -> `if A and B: S` - only where one of the two was written by the inliner
+    (the tree's own nesting is left as its authors wrote it)."""
+    n = 0
+    for node in list(ast.walk(fn)):
+        while isinstance(node, ast.If) and not node.orelse and len(node.body) == 1 and isinstance(node.body[0], ast.If) and not node.body[0].orelse \
+                and (getattr(node, "_inl", False) or getattr(node.body[0], "_inl", False)):
+            inner = node.body[0]
+            vals = (node.test.values if isinstance(node.test, ast.BoolOp) and isinstance(node.test.op, ast.And) else [node.test]) + \
+                   (inner.test.values if isinstance(inner.test, ast.BoolOp) and isinstance(inner.test.op, ast.And) else [inner.test])
+            node.test = ast.copy_location(ast.BoolOp(op=ast.And(), values=vals), node.test)
+            node.body = inner.body
+            n += 1
+    if n:
+        for x in ast.walk(fn):
+            for child in ast.iter_child_nodes(x):
+                child._parent = x
+    return n
+
+
 def _literal(v):
     """AST of an immutable constant value, or None."""
     if isinstance(v, (str, bytes, int, float, bool, type(None))):
@@ -628,7 +826,10 @@ def run(prog) -> int:
         changed = 0
         for node in ast.walk(m.tree):
             if isinstance(node, (ast.FunctionDef, ast.AsyncFunctionDef)):
+                changed += split_chained_assignments(node)
                 changed += split_tuple_assignments(node)
+                changed += coalesce_copies(node)
+                changed += merge_nested_ifs(node)
                 changed += substitute_function(node)
                 if sink_attribute_targets(node):
                     changed += 1 + substitute_function(node)
